@@ -531,6 +531,18 @@ func (e *Engine) installSpecObjs(pkg *types.Package) {
 	mk("hashedLen", []types.Type{anyT}, types.Typ[types.Int], false)
 	mk("hashedIsBytes", []types.Type{anyT, types.Typ[types.Int], types.NewSlice(types.Typ[types.Byte])}, boolT, false)
 	mk("hashedIsInt", []types.Type{anyT, types.Typ[types.Int], types.Typ[types.Uint64]}, boolT, false)
+	mk("called", []types.Type{types.Typ[types.String]}, boolT, false)
+	mk("lastErr", []types.Type{types.Typ[types.String]}, types.Universe.Lookup("error").Type(), false)
+	mk("tarCount", []types.Type{anyT}, types.Typ[types.Int], false)
+	mk("tarPos", []types.Type{anyT}, types.Typ[types.Int], false)
+	mk("tarSrc", []types.Type{anyT}, anyT, false)
+	mk("tarName", []types.Type{anyT, types.Typ[types.Int]}, types.Typ[types.String], false)
+	mk("lineCount", []types.Type{anyT}, types.Typ[types.Int], false)
+	mk("lineAt", []types.Type{anyT, types.Typ[types.Int]}, types.Typ[types.String], false)
+	mk("scanPos", []types.Type{anyT}, types.Typ[types.Int], false)
+	mk("scanOK", []types.Type{types.Typ[types.String]}, boolT, false)
+	mk("scanSha", []types.Type{types.Typ[types.String]}, types.NewSlice(types.Typ[types.Byte]), false)
+	mk("scanFile", []types.Type{types.Typ[types.String]}, types.Typ[types.String], false)
 	mk("radixHas", []types.Type{anyT, types.Typ[types.String]}, boolT, false)
 	mk("radixGet", []types.Type{anyT, types.Typ[types.String]}, anyT, false)
 	mk("timeBefore", []types.Type{anyT, anyT}, boolT, false)
